@@ -442,6 +442,8 @@ pub struct Env {
     pub park: bool,
     /// run only the sub-checks named here (the unoptimised-library child run); empty = all
     pub only: Vec<String>,
+    /// shrink attempts proptest may spend on a failing tape (lowered for sub-checks whose failing cases are slow)
+    pub shrink_iters: u32,
     pub subs: Vec<SubReport>,
     pub failure: Option<Failure>,
     pub notes: Vec<String>,
@@ -463,7 +465,7 @@ fn shard_seed(seed: u64, sub: &str, shard: usize) -> [u8; 32] {
 
 impl Env {
     pub fn new(prop: &'static str, tier: Tier, seed: u64, root: PathBuf, profile: &'static str) -> Env {
-        Env { prop, tier, seed, root, profile, park: false, only: Vec::new(), subs: Vec::new(), failure: None, notes: Vec::new(), required: Vec::new() }
+        Env { prop, tier, seed, root, profile, park: false, only: Vec::new(), shrink_iters: 4096, subs: Vec::new(), failure: None, notes: Vec::new(), required: Vec::new() }
     }
 
     pub fn thorough(&self) -> bool {
@@ -511,6 +513,7 @@ impl Env {
         let seed = self.seed;
         let park = self.park;
         let profile = self.profile;
+        let shrink_iters = self.shrink_iters;
         let results: Vec<(Ctx, Option<(&'static str, Input, String)>)> = std::thread::scope(|sc| {
             let hs: Vec<_> = (0..SHARDS)
                 .map(|shard| {
@@ -522,7 +525,7 @@ impl Env {
                         let cfg = Config {
                             cases,
                             failure_persistence: None,
-                            max_shrink_iters: 4096,
+                            max_shrink_iters: shrink_iters,
                             ..Config::default()
                         };
                         let rng = TestRng::from_seed(RngAlgorithm::ChaCha, &shard_seed(seed, sub.name, shard));
